@@ -533,7 +533,10 @@ class NDNApp:
         del self._prefix_tree[name]
 
     def _on_nack(self, name: FormalName, nack_reason: int):
-        node = self._int_tree[name]
+        try:
+            node = self._int_tree[name]
+        except KeyError:
+            node = None
         if node:
             if node.nack_interest(nack_reason):
                 del self._int_tree[name]
